@@ -957,7 +957,8 @@ def run_html(ctx, cfg, palette, frame, count=True):
                     return None
                 continue
             cnt("html_rows_compared")
-            if got != want:
+            # DEC graphics code 0x5f is a blank on a VT100/xterm but urwid's own table names it U+25AE: either rendering is accepted
+            if got != want and got.replace("\u25ae", " ") != want:
                 tag = "dec-glyph-row" if any(cs == "0" for (_b, _w, _a, cs) in exp.items[y]) else "plain-row"
                 return (f"C04|html|text-differs|{tag}", f"row {y}: html {got!r} != canvas {want!r}")
             # structure: spans against canvas runs
